@@ -853,6 +853,16 @@ Proof.
   - simpl. ring.
   - cbn [fold_left length]. rewrite IH. rewrite sumn_first. simpl nth. ring.
 Qed.
+(* the same with the running sum kept in lowest terms *)
+Lemma fold_plusred_eq l : forall x y, x == y ->
+  fold_left (fun acc v => Qred (acc + v)) l x == fold_left Qplus l y.
+Proof.
+  induction l as [|a l IH]; intros x y E; cbn [fold_left]; [exact E|].
+  apply IH. rewrite Qred_correct, E. reflexivity.
+Qed.
+Lemma fold_plusred_sumn l x :
+  fold_left (fun acc v => Qred (acc + v)) l x == x + sumn (fun t => nth t l 0) (length l).
+Proof. rewrite (fold_plusred_eq l x x) by reflexivity. apply fold_plus_sumn. Qed.
 
 Lemma crosscov_entry_spec N k xi yj :
   length xi = N -> length yj = N -> (k <= N)%nat ->
@@ -862,7 +872,7 @@ Proof.
   intros Lx Ly Hk. unfold crosscov_entry. rewrite Qred_correct.
   assert (Len : length (zipw Qmult (skipn k xi) (firstn (N - k) yj)) = (N - k)%nat).
   { rewrite zipw_length, skipn_length, firstn_length. lia. }
-  rewrite Len. rewrite fold_plus_sumn, Len.
+  rewrite Len. rewrite fold_plusred_sumn, Len.
   rewrite (sumn_ext _ (fun t => nth (t + k) xi 0 * nth t yj 0)).
   - unfold Qdiv. ring.
   - intros t Ht.
